@@ -5,6 +5,7 @@ package main
 
 import (
 	"fmt"
+	"go/ast"
 	"go/constant"
 	"go/token"
 	"go/types"
@@ -109,6 +110,83 @@ func init() {
 			fv.assume(st, fmt.Sprintf("(forall ((%s Int) (%s Int)) (! %s :pattern ((no-trigger %s) (no-trigger %s))))", qa, qb, implies(and(inR(qa, n), inR(qb, qa)), not(eq(elemOut(qa), elemOut(qb)))), qa, qb))
 			fv.bind(st, v, out)
 			fv.used("lo.Uniq(s): a new slice holding exactly the distinct elements of s")
+			return true
+		},
+		"github.com/samber/lo.UniqBy": func(fv *FV, st *State, ins ssa.CallInstruction, v ssa.Value, callee *ssa.Function, args []string) bool {
+			cc := ins.Common()
+			sl, ok := cc.Args[0].Type().Underlying().(*types.Slice)
+			if !ok {
+				return false
+			}
+			if _, isSt := sl.Elem().Underlying().(*types.Struct); isSt {
+				return false
+			}
+			// the key function must be a function literal whose contract has an `ensures result == <expr>`
+			// clause: <expr> (over its parameter) is the key term used below
+			kfn, _, ok := closureOf(cc.Args[1])
+			if !ok || len(kfn.Params) != 1 {
+				return false
+			}
+			kc := fv.eng.contractFor(kfn)
+			if kc == nil {
+				return false
+			}
+			var keyExpr ast.Expr
+			for _, e := range kc.Ensures {
+				if be, ok := e.Expr.(*ast.BinaryExpr); ok && be.Op == token.EQL {
+					if id, ok := be.X.(*ast.Ident); ok && id.Name == "result" {
+						keyExpr = be.Y
+					}
+				}
+			}
+			if keyExpr == nil {
+				return false
+			}
+			pname := kfn.Params[0].Name()
+			ptype := kfn.Params[0].Type()
+			kpkg := kfn.Pkg
+			if kpkg == nil && kfn.Parent() != nil {
+				kpkg = kfn.Parent().Pkg
+			}
+			keyOf := func(elem string) (string, bool) {
+				ctx := fv.newSpecCtx(kpkg.Pkg, st, st)
+				ctx.vars[pname] = SVal{elem, ptype}
+				var out string
+				okk := true
+				func() {
+					defer func() {
+						if r := recover(); r != nil {
+							okk = false
+						}
+					}()
+					out = ctx.tr(keyExpr).t
+				}()
+				return out, okk
+			}
+			f := fv.elemFam(sl.Elem())
+			in := args[0]
+			if _, ok := keyOf("0"); !ok {
+				return false
+			}
+			nb := fv.alloc(st)
+			n := fv.freshConst("uniqlen", "Int")
+			fv.assume(st, and(sx("<=", "0", n), sx("<=", n, sx("s-len", in))))
+			out := sx("mk-slice", nb, "0", n, n)
+			_, names := famParams(f)
+			fv.havocFamily(st, f, eq(names[0], nb))
+			elemIn := func(i string) string { return fv.read(st, f, sx("s-base", in), sx("+", sx("s-off", in), i)) }
+			elemOut := func(j string) string { return fv.read(st, f, nb, j) }
+			inR := func(i, hi string) string { return and(sx("<=", "0", i), sx("<", i, hi)) }
+			qi, qj := fv.fresh("q!i"), fv.fresh("q!m")
+			kIn, _ := keyOf(elemIn(qi))
+			kOut, _ := keyOf(elemOut(qj))
+			// every input element has an element with the same key in the result
+			fv.assume(st, fmt.Sprintf("(forall ((%s Int)) (! %s :pattern ((no-trigger %s))))", qi, implies(inR(qi, sx("s-len", in)), fmt.Sprintf("(exists ((%s Int)) %s)", qj, and(inR(qj, n), eq(kOut, kIn)))), qi))
+			// every result element is an input element
+			qj2, qi2 := fv.fresh("q!m"), fv.fresh("q!i")
+			fv.assume(st, fmt.Sprintf("(forall ((%s Int)) (! %s :pattern ((no-trigger %s))))", qj2, implies(inR(qj2, n), fmt.Sprintf("(exists ((%s Int)) %s)", qi2, and(inR(qi2, sx("s-len", in)), eq(elemOut(qj2), elemIn(qi2))))), qj2))
+			fv.bind(st, v, out)
+			fv.used("lo.UniqBy(s, key): a new slice of elements of s in which every key of s occurs (key = the contract of the key function)")
 			return true
 		},
 		"errors.New":              modelNewError,
